@@ -115,6 +115,9 @@ def gen_cases(tier, seed):
     # many small dense conserving flows, few settings each: flow-safe paths used as constraints must never change the minimum
     for i in range(100 if tier == "quick" else 2000):
         cases.append({"cls": "MinFlowDecomp", "rs": f"C05fs:{seed}:{i}", "tier": tier, "want": "flowsafe"})
+    # decimal float flows (0.1 .. 0.9 multiples, summed as a pipeline would) with the min-generating-set lower bound and its companions
+    for i in range(100 if tier == "quick" else 1500):
+        cases.append({"cls": "MinFlowDecomp", "rs": f"C05mgs:{seed}:{i}", "tier": tier, "want": "mgsfloat"})
     return cases
 
 
@@ -127,6 +130,18 @@ def objective_of(cls, res):
         o = res.get("obj")
         return round(o, 6) if isinstance(o, (int, float)) else o
     return "solved"
+
+
+def presolve_off_agrees(inst, setting, cls, base):
+    i2 = copy.deepcopy(inst); i2["kw"]["optimization_options"] = dict(setting)
+    old = (fp.MinFlowDecomp.subgraph_lowerbound_size, fp.MinFlowDecomp.subgraph_lowerbound_shift)
+    fp.MinFlowDecomp.subgraph_lowerbound_size, fp.MinFlowDecomp.subgraph_lowerbound_shift = 3, 2
+    try:
+        res = models.run(i2, solver_options=dict(SO, presolve="off"))
+    finally:
+        fp.MinFlowDecomp.subgraph_lowerbound_size, fp.MinFlowDecomp.subgraph_lowerbound_shift = old
+    o = objective_of(cls, res)
+    return bool(res.get("solved")) == base["solved"] and (o == base["obj"] or (isinstance(o, (int, float)) and isinstance(base["obj"], (int, float)) and models.num_close(o, base["obj"])))
 
 
 def run_case(case):
@@ -201,6 +216,25 @@ def run_case(case):
                        {"optimize_with_flow_safe_paths": True, "optimize_with_safe_paths": False, "optimize_with_safety_as_subpath_constraints": True},
                        {"optimize_with_greedy": False, "optimize_with_flow_safe_paths": True, "optimize_with_safe_paths": False, "optimize_with_safety_as_subpath_constraints": True},
                        {"optimize_with_greedy": False, "optimize_with_flow_safe_paths": True, "optimize_with_safe_paths": False}]
+    elif case.get("want") == "mgsfloat":
+        for _ in range(12):
+            nodes, edges = gen.dag_random(rng, n=rng.randint(4, 6), p=rng.choice([0.45, 0.6]))
+            if not (4 <= len(edges) <= 9):
+                continue
+            flow0, planted = gen.plant_paths(rng, nodes, edges, npaths=rng.randint(2, 4), maxw=9)
+            if planted:
+                break
+        else:
+            return {"viol": [], "obs": {"c05.shape_skipped": 1}, "nontrivial": False}
+        flow = {e: 0.0 for e in flow0}
+        for p_, w_ in planted:
+            for e in zip(p_, p_[1:]):
+                flow[e] += w_ / 10
+        if rng.random() < 0.3:
+            e0 = rng.choice(list(flow)); flow[e0] = flow[e0]      # (keep)
+        inst = {"cls": cls, "spec": gen.spec(nodes, edges, eattr={e: {"flow": f} for e, f in flow.items()}), "kw": {"flow_attr": "flow", "weight_type": "float"}}
+        fs_settings = [{"optimize_with_greedy": False}, {"use_min_gen_set_lowerbound": True}, {"use_min_gen_set_lowerbound": True, "optimize_with_guessed_weights": True},
+                       {"use_min_gen_set_lowerbound": True, "use_min_gen_set_lowerbound_partition_constraints": True}, {"optimize_with_guessed_weights": True}]
     elif case.get("want") == "covlen":
         for _ in range(60):
             inst, meta = W.random_instance(rng, cls, small=True)
@@ -253,6 +287,10 @@ def run_case(case):
         if (r["exc"] is None) != (base["exc"] is None):
             who = r if r["exc"] else base
             viol.append({"sig": f"C05/exception-depends-on-options/{cls}/{(who['exc'] or ('', ''))[0]}/" + "+".join(on)[:120], "msg": f"baseline exc={base['exc']} vs {on}: exc={r['exc']}; {desc}"})
+        elif (r["solved"] != base["solved"] or (r["obj"] != base["obj"] and not (isinstance(r["obj"], (int, float)) and isinstance(base["obj"], (int, float)) and models.num_close(r["obj"], base["obj"])))) \
+                and presolve_off_agrees(inst, r["s"], cls, base):
+            # classified: with HiGHS' presolve switched off this setting agrees with the baseline => solver (trusted base) defect, keyed as such
+            viol.append({"sig": f"C05/options-change-result/{cls}/solver-presolve-defect", "msg": f"all-off: solved={base['solved']} obj={base['obj']}; with {on}: solved={r['solved']} obj={r['obj']}, but the same setting with presolve='off' agrees with the baseline; {desc}"})
         elif r["solved"] != base["solved"]:
             viol.append({"sig": f"C05/solvability-depends-on-options/{cls}/" + "+".join(on)[:150], "msg": f"all-off: solved={base['solved']} obj={base['obj']}; with {on}: solved={r['solved']} obj={r['obj']}; {desc}"})
         elif r["obj"] != base["obj"] and not (isinstance(r["obj"], (int, float)) and isinstance(base["obj"], (int, float)) and models.num_close(r["obj"], base["obj"])):
